@@ -298,6 +298,8 @@ func ProgSource(route string, t vu.Type, jsonText string) string {
 	var crossing string
 	if route == "as" {
 		crossing = fmt.Sprintf("let x = '%s'.parse_json() as %s;", jsonText, t.Src())
+	} else if route == "letget" {
+		crossing = fmt.Sprintf("let ao = '{\"k\": %s}'.parse_json() as { ? };\n        let x: %s = ao.get(\"k\");", jsonText, t.Src())
 	} else {
 		crossing = fmt.Sprintf("let x: %s = '%s'.parse_json();", t.Src(), jsonText)
 	}
